@@ -5,7 +5,11 @@
   Vocabulary: days are day numbers (`Int`); `c.bd a b` is the increasing list of business days in `[a, b]`,
   `cnt c a b` its length ("day-by-day counting"), `K c x = cnt c c.t0 (x-1)` the number of business days of the
   calendar before `x`, `InRange c s n` the guard "the business day `s` and the position `n` further are inside the
-  calendar's table" — exactly the condition under which the real table lookup does not raise `KeyError`.
+  calendar's table".  On the table path (`|n| ≥ 2`) this is exactly the condition under which the lookup does not raise
+  `KeyError` (`add_table_ok_iff`, both directions; otherwise the answer is `KeyError`: `add_table_error_key`).  On the loop path
+  (`|n| ≤ 1`) the code never raises (`add_one_total`) and `InRange` is only SUFFICIENT for the loop to land on the table's
+  next entry: it is stronger than "does not raise" there (`add_paths_split`).  `inRange_of_margin` restates the guard by
+  day-by-day counting (`|n|` business days exist on the relevant side of `s` inside `[t0, t1]`), `inRange_iff_margin` exactly.
   Every theorem holds for every holiday list, weekend list, range, convention and month function, unless it says
   otherwise (`adjust_m_calendar_month` is about the driver's month function `ymKey`; the `…_nearest` theorems assume the
   holidays are listed inside the calendar's range and the weekend leaves one weekday, `NonDeg`).
@@ -329,6 +333,59 @@ theorem add_one_total (c : Cal) (a : Adj) (t : Int) :
   · have := loopUp_ge c.isHol c.addFuel (c.adjust a t + 1); omega
   · have := loopDown_le c.isHol c.addFuel (c.adjust a t - 1); omega
 
+/-! ### the guard is exact on the table path, and what it says by day-by-day counting -/
+
+/-- the CONVERSE of `add_spec` on the table path: for `|n| ≥ 2` the lookup `add(t, n)` returns (does not raise `KeyError`)
+exactly when `InRange` holds of the adjusted day — the guard of `add_nth_fwd/bwd`, `bdays_add`, `add_add`, `add_inverse` is not
+stronger than "the code answers" there -/
+theorem add_table_ok_iff (c : Cal) (a : Adj) (t n : Int) (hn : 2 ≤ n.natAbs) :
+    (∃ r, c.add a t n = .ok r) ↔ InRange c (c.adjust a t) n := by
+  constructor
+  · intro ⟨r, h⟩
+    unfold Cal.add Cal.addT at h
+    have hn' : n.natAbs > 1 := by omega
+    simp only [hn', if_true] at h
+    cases hc : clockOfT c.bdays (c.adjust a t) with
+    | error e => rw [hc] at h; cases h
+    | ok i =>
+      rw [hc] at h
+      obtain ⟨s0, s1, sB, hi⟩ := clockOf_ok c _ i hc
+      have h' : atIdxT c.bdays ((i : Int) + n) = .ok r := h
+      obtain ⟨j0, r0, r1, rB, jK⟩ := atIdx_ok c _ r h'
+      have := K_lt_length c r r0 r1 rB
+      exact ⟨s0, s1, sB, by omega, by omega⟩
+  · intro h
+    obtain ⟨r, hr, _⟩ := add_spec c a t n h
+    exact ⟨r, hr⟩
+
+/-- … and when the guard fails the table path answers `KeyError`, nothing else -/
+theorem add_table_error_key (c : Cal) (a : Adj) (t n : Int) (hn : 2 ≤ n.natAbs)
+    (h : ¬ InRange c (c.adjust a t) n) : c.add a t n = .error .key := by
+  have hno : ¬ ∃ r, c.add a t n = .ok r := fun hx => h ((add_table_ok_iff c a t n hn).1 hx)
+  unfold Cal.add Cal.addT at hno ⊢
+  have hn' : n.natAbs > 1 := by omega
+  simp only [hn', if_true] at hno ⊢
+  cases hc : clockOfT c.bdays (c.adjust a t) with
+  | error e =>
+    unfold clockOfT at hc
+    split at hc
+    · cases hc
+    · cases hc; rfl
+  | ok i =>
+    rw [hc] at hno
+    show atIdxT c.bdays ((i : Int) + n) = .error .key
+    have hno' : ¬ ∃ r, atIdxT c.bdays ((i : Int) + n) = .ok r := hno
+    unfold atIdxT at hno' ⊢
+    split
+    · rfl
+    · split
+      · next r hr => exfalso; apply hno'; simp [*]
+      · rfl
+
+-- both sides occur: in `janEnd` the lookup two on from Thu 27 Jan fails (guard false), two on from Tue 25 Jan succeeds
+example : (2 : Nat) ≤ (2 : Int).natAbs ∧ ¬ InRange janEnd (janEnd.adjust .f 730146) 2 ∧ InRange janEnd (janEnd.adjust .f 730144) 2 := by
+  unfold InRange; decide
+
 /-- `bdays(t, add(t, n)) == n` -/
 theorem bdays_add (c : Cal) (a : Adj) (t n : Int) (h : InRange c (c.adjust a t) n) :
     ∃ r, c.add a t n = .ok r ∧ c.bdaysBetween a t r = .ok n := by
@@ -527,4 +584,62 @@ example : jan.drangeB 737430 737440 3 = .ok [737430, 737433, 737438, 737441] ∧
   ⟨by rfl, by rfl⟩
 example : jan.drangeB 737440 737430 (-1) = .ok [737440, 737439, 737438, 737437, 737434, 737433, 737432, 737431, 737430] := by rfl
 
+/-! ### the guard `InRange` in the statement's own vocabulary: day-by-day counts of business days on either side of `s` -/
+
+/-- the table has one entry per business day of `[t0, t1]`: those before `s`, `s` itself, those after `s` -/
+theorem bdays_length_split (c : Cal) (s : Int) (h0 : c.t0 ≤ s) (h1 : s ≤ c.t1) (hB : c.isB s = true) :
+    c.bdays.length = cnt c c.t0 (s - 1) + 1 + cnt c (s + 1) c.t1 := by
+  rw [bdays_split_at c s h0 h1 hB]; simp [cnt]; omega
+
+/-- the guard by day-by-day counting, EXACTLY: `InRange c s n` says that `s` is a business day of `[t0, t1]`, that at least `n`
+business days follow it up to `t1` (binding for `n > 0`) and at least `-n` precede it from `t0` (binding for `n < 0`) -/
+theorem inRange_iff_margin (c : Cal) (s n : Int) :
+    InRange c s n ↔ c.t0 ≤ s ∧ s ≤ c.t1 ∧ c.isB s = true ∧ n ≤ cnt c (s + 1) c.t1 ∧ -n ≤ cnt c c.t0 (s - 1) := by
+  unfold InRange
+  constructor
+  · intro ⟨h0, h1, hB, a, b⟩
+    have := bdays_length_split c s h0 h1 hB
+    unfold K at a b
+    exact ⟨h0, h1, hB, by omega, by omega⟩
+  · intro ⟨h0, h1, hB, a, b⟩
+    have := bdays_length_split c s h0 h1 hB
+    unfold K
+    exact ⟨h0, h1, hB, by omega, by omega⟩
+
+/-- a sufficient form that does not look at the sign of `n`: `|n|` business days exist on either side of `s` inside the range -/
+theorem inRange_of_margin (c : Cal) (s n : Int) (hs : c.t0 ≤ s ∧ s ≤ c.t1 ∧ c.isB s = true)
+    (h : n.natAbs ≤ cnt c (s + 1) c.t1 ∧ n.natAbs ≤ cnt c c.t0 (s - 1)) : InRange c s n :=
+  (inRange_iff_margin c s n).2 ⟨hs.1, hs.2.1, hs.2.2, by omega, by omega⟩
+
+/-- one-sided: forward bumps need business days after `s` only, backward bumps before `s` only -/
+theorem inRange_of_margin_fwd (c : Cal) (s : Int) (n : Nat) (hs : c.t0 ≤ s ∧ s ≤ c.t1 ∧ c.isB s = true)
+    (h : n ≤ cnt c (s + 1) c.t1) : InRange c s n :=
+  (inRange_iff_margin c s n).2 ⟨hs.1, hs.2.1, hs.2.2, by omega, by omega⟩
+
+theorem inRange_of_margin_bwd (c : Cal) (s : Int) (n : Nat) (hs : c.t0 ≤ s ∧ s ≤ c.t1 ∧ c.isB s = true)
+    (h : n ≤ cnt c c.t0 (s - 1)) : InRange c s (-(n : Int)) :=
+  (inRange_iff_margin c s _).2 ⟨hs.1, hs.2.1, hs.2.2, by omega, by omega⟩
+
+-- satisfiable: in `jan`, Thu 30 Jan (737454) has 11 business days after it and 20 before it
+example : jan.t0 ≤ 737454 ∧ (737454 : Int) ≤ jan.t1 ∧ jan.isB 737454 = true ∧
+    (2 : Int).natAbs ≤ cnt jan (737454 + 1) jan.t1 ∧ (2 : Int).natAbs ≤ cnt jan jan.t0 (737454 - 1) := by decide
+
+/-- the n-th business day exists, in the statement's own vocabulary: if `n` business days follow `s = adjust(t)` inside the range,
+`add(t, n)` returns the one with exactly `n` business days in `(s, r]` -/
+theorem add_nth_fwd_of_margin (c : Cal) (a : Adj) (t : Int) (n : Nat)
+    (hs : c.t0 ≤ c.adjust a t ∧ c.adjust a t ≤ c.t1 ∧ c.isB (c.adjust a t) = true) (h : n ≤ cnt c (c.adjust a t + 1) c.t1) :
+    ∃ r, c.add a t n = .ok r ∧ c.isB r = true ∧ c.adjust a t ≤ r ∧ r ≤ c.t1 ∧ cnt c (c.adjust a t + 1) r = n :=
+  add_nth_fwd c a t n (inRange_of_margin_fwd c _ n hs h)
+
+theorem add_nth_bwd_of_margin (c : Cal) (a : Adj) (t : Int) (n : Nat)
+    (hs : c.t0 ≤ c.adjust a t ∧ c.adjust a t ≤ c.t1 ∧ c.isB (c.adjust a t) = true) (h : n ≤ cnt c c.t0 (c.adjust a t - 1)) :
+    ∃ r, c.add a t (-(n : Int)) = .ok r ∧ c.isB r = true ∧ r ≤ c.adjust a t ∧ c.t0 ≤ r ∧ cnt c r (c.adjust a t - 1) = n :=
+  add_nth_bwd c a t n (inRange_of_margin_bwd c _ n hs h)
+
+/-- on the table path the code answers exactly when enough business days exist on the side it bumps to -/
+theorem add_table_ok_iff_margin (c : Cal) (a : Adj) (t n : Int) (hn : 2 ≤ n.natAbs) :
+    (∃ r, c.add a t n = .ok r) ↔
+      c.t0 ≤ c.adjust a t ∧ c.adjust a t ≤ c.t1 ∧ c.isB (c.adjust a t) = true ∧
+      n ≤ cnt c (c.adjust a t + 1) c.t1 ∧ -n ≤ cnt c c.t0 (c.adjust a t - 1) := by
+  rw [add_table_ok_iff c a t n hn, inRange_iff_margin]
 end Pyg.Props.C05
